@@ -149,6 +149,7 @@ type Client struct {
 	Cl       *http2.Client
 	Conns    []*SrvConn
 	Calls    []*CCall
+	AllConns []*http2.Conn // every connection object the client has had, dead ones included
 	Dials    int
 	Events   int
 	EventLog []string
@@ -248,10 +249,49 @@ func (h *Client) step(what string) {
 			panic(fmt.Sprintf("harness: step horizon (%d scheduler steps) exceeded after %d events; live: %v", h.S.MaxStep, h.Events, h.S.Live()))
 		}
 		h.collect()
+		h.noteConns()
 		if h.Opts.NoAutoHandshake || !h.autoHandshake() {
 			break
 		}
 	}
+}
+
+// noteConns remembers every connection object the client has had (a dead one leaves its list).
+//
+//go:norace
+func (h *Client) noteConns() {
+	if h.Cl == nil {
+		return
+	}
+	for _, c := range http2.VerifClientConnsQuiescent(h.Cl) {
+		known := false
+		for _, k := range h.AllConns {
+			known = known || k == c
+		}
+		if !known {
+			h.AllConns = append(h.AllConns, c)
+		}
+	}
+}
+
+// Observation is everything a user of the client and its servers can see, as text: what each server
+// received, what each caller got (error text included), and the error each connection reports.
+func (h *Client) Observation() string {
+	var sb strings.Builder
+	for i, sc := range h.Conns {
+		fmt.Fprintf(&sb, "server#%d received:\n", i)
+		for _, f := range sc.Out {
+			fmt.Fprintf(&sb, "  %s %x\n", f.String(), f.Payload)
+		}
+	}
+	for _, c := range h.Calls {
+		fmt.Fprintf(&sb, "caller %s: done=%v retry=%v err=%v status=%d headers=%v body=%q\n", c.Tag, c.Done, c.Retry, c.Err, c.Status, c.Headers, c.Body)
+	}
+	for i, c := range h.AllConns {
+		fmt.Fprintf(&sb, "conn#%d LastErr=%v\n", i, c.LastErr())
+	}
+	fmt.Fprintf(&sb, "panics=%v live=%v\n", h.S.Panics, h.S.LiveNames())
+	return sb.String()
 }
 
 // autoHandshake answers a fresh connection's preface with SETTINGS (+ACK of the
